@@ -7,7 +7,7 @@ import ast
 import z3
 
 from . import logic as L
-from .symex import PathEnd, RaiseExc, VEmptyList
+from .symex import PathEnd, RaiseExc, VEmptyDict, VEmptyList, VEmptySet
 from .values import *  # noqa: F401,F403
 
 functions: dict = {}
@@ -190,6 +190,8 @@ def _len(ex, args, kwargs, node):
         return VInt(0)
     if isinstance(a, VDict):
         return VInt(a.KL.len(a.keys))
+    if isinstance(a, VSet):
+        return VInt(L.enum_theory(a.et.sort())[2](a.t))
     if isinstance(a, VFalseOr):
         ex.oblige("noraise.len_of_False", node, z3.Not(a.isfalse))
         return _len(ex, [a.val], kwargs, node)
@@ -675,3 +677,44 @@ def _update(ex, d, args, kwargs, node):
 @meth("str", "replace", tb="TB-py")
 def _replace(ex, s, args, kwargs, node):
     return VStr(ex.st.fresh_const("replaced", StrSort))
+
+
+# ---------------------------------------------------------------------------
+# sets (TB-py): finite sets as characteristic functions; iteration = some enumeration
+# ---------------------------------------------------------------------------
+@fn("builtins.frozenset", "builtins.set", tb="TB-py")
+def _mkset(ex, args, kwargs, node):
+    if not args:
+        return VEmptySet()
+    (x,) = args
+    if isinstance(x, VSet):
+        return VSet(x.t, x.et)
+    if isinstance(x, VList):
+        return VSet(L.set_of_list(x.et.sort())(x.t), x.et)
+    if isinstance(x, VEmptyList):
+        return VEmptySet()
+    raise Unsupported(f"set of {x.ty}")
+
+
+@meth("set", "issubset", tb="TB-py")
+def _issubset(ex, a, args, kwargs, node):
+    (b,) = args
+    if isinstance(a, VEmptySet):
+        return VBool(True)
+    if isinstance(b, VEmptySet):
+        return VBool(a.t == z3.EmptySet(a.et.sort()))
+    return VBool(z3.IsSubset(a.t, b.t))
+
+
+@meth("set", "add", tb="TB-py")
+def _setadd(ex, a, args, kwargs, node):
+    (x,) = args
+    if isinstance(a, VEmptySet):
+        lt = ex.contract.locals.get(node.func.value.id) if isinstance(node.func.value, ast.Name) else None
+        if lt is None:
+            raise Unsupported("add to a set of unknown element type (declare it in the contract's locals)")
+        a = ex.coerce(a, lt, "set")
+    if isinstance(x, VEmptySet):
+        x = ex.coerce(x, a.et, "elem")
+    ex.rebind(node.func.value, a, VSet(z3.SetAdd(a.t, x.t), a.et))
+    return VNone()
